@@ -51,12 +51,18 @@ func c19Flow(t string) bool {
 	return false
 }
 
+// c19FrameText mirrors HtmlWalk!TextOK for a frame (details takes text after its summary).
+func c19FrameText(f *c19Frame) bool {
+	return c19TextOK(f.tag) || (f.tag == "details" && f.nch >= 1)
+}
+
 func c19Heading(t string) bool { return len(t) == 2 && t[0] == 'h' && t[1] >= '1' && t[1] <= '6' }
 
 func c19CellLike(t string) bool { return t == "li" || t == "td" || t == "th" }
 
 func c19TextOK(t string) bool {
-	return c19Flow(t) || c19Heading(t) || c19CellLike(t) || t == "p" || t == "pre" || t == "a"
+	return c19Flow(t) || c19Heading(t) || c19CellLike(t) || t == "p" || t == "pre" || t == "a" ||
+		t == "dt" || t == "dd" || t == "figcaption" || t == "summary" || t == "figure"
 }
 
 // c19Allowed mirrors HtmlWalk!Allowed (the trace specification re-checks every step).
@@ -68,20 +74,41 @@ func c19Allowed(f *c19Frame, d c19Desc, lax bool) bool {
 	case "ul", "ol":
 		// Lax: a list or a div directly inside a list (malformed, kept in place by the parser)
 		return d.Tag == "li" || (lax && (d.Tag == "ul" || d.Tag == "ol" || d.Tag == "div"))
+	case "dl":
+		return d.Tag == "dt" || d.Tag == "dd"
 	case "pre", "a", "script", "style", "table", "tr", "thead", "tbody", "tfoot":
 		return false
+	case "details":
+		if f.nch == 0 {
+			return d.Tag == "summary"
+		}
 	}
+	flowIn := c19Flow(f.tag) || f.tag == "dd" || f.tag == "figcaption" || f.tag == "figure" || f.tag == "details"
+	mixable := d.Tag == "div" || d.Tag == "section" || d.Tag == "nav" || d.Tag == "aside"
 	switch {
 	case d.Tag != "body" && c19Flow(d.Tag):
-		return c19Flow(f.tag) && !((d.Tag == "header" || d.Tag == "footer") && f.nohf)
-	case c19Heading(d.Tag), d.Tag == "table", d.Tag == "pre", d.Tag == "script":
-		return c19Flow(f.tag)
+		if (d.Tag == "header" || d.Tag == "footer") && f.nohf {
+			return false
+		}
+		return flowIn || (mixable && c19CellLike(f.tag) && d.Planned)
+	case c19Heading(d.Tag), d.Tag == "pre", d.Tag == "script":
+		return flowIn
+	case d.Tag == "table":
+		return flowIn || (c19CellLike(f.tag) && d.Attr != "")
 	case d.Tag == "p", d.Tag == "ul", d.Tag == "ol":
-		return c19Flow(f.tag) || c19CellLike(f.tag)
+		return flowIn || c19CellLike(f.tag)
 	case d.Tag == "a":
-		return !f.inA && (c19Flow(f.tag) || c19Heading(f.tag) || f.tag == "p" || c19CellLike(f.tag))
+		return !f.inA && (flowIn || c19Heading(f.tag) || f.tag == "p" || c19CellLike(f.tag) || f.tag == "dt" || f.tag == "summary")
 	case d.Tag == "br":
-		return c19Heading(f.tag) || f.tag == "p" || c19CellLike(f.tag)
+		return c19Heading(f.tag) || f.tag == "p" || c19CellLike(f.tag) || f.tag == "dt" || f.tag == "summary"
+	case d.Tag == "dl", d.Tag == "figure", d.Tag == "details":
+		return c19Flow(f.tag)
+	case d.Tag == "dt", d.Tag == "dd":
+		return f.tag == "dl"
+	case d.Tag == "figcaption":
+		return f.tag == "figure" && f.nch == 0
+	case d.Tag == "summary":
+		return f.tag == "details" && f.nch == 0
 	}
 	return false
 }
@@ -169,9 +196,14 @@ func c19RandDoc(rnd *rand.Rand, alphabet []c19Desc, steps, maxDepth int, lax boo
 				continue
 			}
 			// an empty free element must get a child before it can be closed
-			if c19TextOK(f.tag) {
+			switch {
+			case c19FrameText(f):
 				b.text("plain")
-			} else {
+			case f.tag == "dl":
+				b.open(c19Desc{Tag: "dd"})
+			case f.tag == "details":
+				b.open(c19Desc{Tag: "summary"})
+			default:
 				b.open(c19Desc{Tag: "li"})
 			}
 			continue
@@ -179,7 +211,7 @@ func c19RandDoc(rnd *rand.Rand, alphabet []c19Desc, steps, maxDepth int, lax boo
 		switch r := rnd.Intn(10); {
 		case r < 2 && canClose:
 			b.close()
-		case r < 5 && c19TextOK(f.tag) && !f.lastText:
+		case r < 5 && c19FrameText(f) && !f.lastText:
 			b.text(c19Forms[rnd.Intn(len(c19Forms))])
 			free++
 		default:
@@ -194,7 +226,7 @@ func c19RandDoc(rnd *rand.Rand, alphabet []c19Desc, steps, maxDepth int, lax boo
 			if len(cand) == 0 {
 				if canClose {
 					b.close()
-				} else if c19TextOK(f.tag) && !f.lastText {
+				} else if c19FrameText(f) && !f.lastText {
 					b.text("plain")
 					free++
 				} else {
@@ -253,6 +285,10 @@ func c19RecordCase(i int, raw []byte) Result {
 				mode := g.Modes[m]
 				if g.Entry != "reader" {
 					mode = "default" // entry without a mode parameter
+				}
+				if m < len(g.Units) { // with the unit each token came out in
+					ev = append(ev, Event{"event": "Walk", "entry": g.Entry, "out": g.Out, "mode": mode, "toks": withUnits(toks, g.Units[m])})
+					continue
 				}
 				ev = append(ev, Event{"event": "Walk", "entry": g.Entry, "out": g.Out, "mode": mode, "toks": toks})
 			}
